@@ -157,6 +157,8 @@ def sparse_getitem(sparse, idxs):
 
     for i, idx in list(enumerate(idxs))[::-1]:
         if isinstance(idx, int):
+            if idx < 0:
+                idx = idx + size[i]
             del size[i]
             mask = indices[i].eq(idx)
             if torch.any(mask):
